@@ -2,6 +2,9 @@ import Driver.Util
 import Driver.Vec
 import Driver.Queue
 import Driver.PubSub
+import Driver.ReqRes
+import Driver.WaitSet
+import Driver.Ffi
 import Driver.SlotMap
 import Driver.FlatMap
 import Driver.Str
@@ -39,6 +42,9 @@ def components : List (String × Comp) := [
   ("vec", VecD.comp),
   ("queue", QueueD.comp),
   ("pubsub", PubSubD.comp),
+  ("reqres", ReqResD.comp),
+  ("waitset", WaitSetD.comp),
+  ("ffi", FfiD.comp),
   ("slotmap", SlotMapD.comp),
   ("flatmap", FlatMapD.comp),
   ("string", StrD.comp),
